@@ -85,6 +85,16 @@ def compress(body, compress_level):
     yield zobj.flush() + struct.pack('<l', crc) + struct.pack('<L', size & 0xFFFFFFFF)
 
 
+def _range_int(value):
+    """int(value) if value consists of ASCII digits only (and is convertible), else None."""
+    if value.isascii() and value.isdigit():
+        try:
+            return int(value)
+        except ValueError:  # longer than sys.get_int_max_str_digits()
+            return None
+    return None
+
+
 def get_ranges(headervalue, content_length):
     """
     Return a list of (start, stop) indices from a Range header, or None.
@@ -100,13 +110,36 @@ def get_ranges(headervalue, content_length):
         return None
 
     result = []
-    _bytesunit, byteranges = headervalue.split('=', 1)
+    if '=' not in headervalue:
+        # See rfc quote below: an invalid header is treated as if it did not exist.
+        return None
+    bytesunit, byteranges = headervalue.split('=', 1)
+    if bytesunit.strip().lower() != 'bytes':
+        # rfc 7233 sec 3.1: a range unit that is not understood MUST be ignored.
+        return None
     for brange in byteranges.split(','):
+        if '-' not in brange:
+            return None
         start, stop = (x.strip() for x in brange.split('-', 1))
         if start:
-            if not stop:
+            start = _range_int(start)
+            if start is None:
+                return None
+            if stop:
+                stop = _range_int(stop)
+                if stop is None or stop < start:
+                    # From rfc 2616 sec 14.16:
+                    # "If the server ignores a byte-range-spec because it
+                    # is syntactically invalid, the server SHOULD treat
+                    # the request as if the invalid Range header field
+                    # did not exist. (Normally, this means return a 200
+                    # response containing the full entity)."
+                    return None
+                # rfc 2616 sec 14.35.1: a last-byte-pos at or beyond the current
+                # length is taken to be one less than the current length.
+                stop = min(stop, content_length - 1)
+            else:
                 stop = content_length - 1
-            start, stop = list(map(int, (start, stop)))
             if start >= content_length:
                 # From rfc 2616 sec 14.16:
                 # "If the server receives a request (other than one
@@ -117,14 +150,6 @@ def get_ranges(headervalue, content_length):
                 # resource), it SHOULD return a response code of 416
                 # (Requested range not satisfiable)."
                 continue
-            if stop < start:
-                # From rfc 2616 sec 14.16:
-                # "If the server ignores a byte-range-spec because it
-                # is syntactically invalid, the server SHOULD treat
-                # the request as if the invalid Range header field
-                # did not exist. (Normally, this means return a 200
-                # response containing the full entity)."
-                return None
             # Prevent duplicate ranges. See Issue #59
             if (start, stop + 1) not in result:
                 result.append((start, stop + 1))
@@ -132,10 +157,18 @@ def get_ranges(headervalue, content_length):
             if not stop:
                 # See rfc quote above.
                 return None
-            # Negative subscript (last N bytes)
+            suffix = _range_int(stop)
+            if suffix is None:
+                return None
+            if suffix == 0 or content_length == 0:
+                # a suffix of no bytes (or of an empty entity) is unsatisfiable
+                continue
+            # Negative subscript (last N bytes); a suffix longer than the
+            # entity selects the whole entity.
+            start = max(content_length - suffix, 0)
             # Prevent duplicate ranges. See Issue #59
-            if (content_length - int(stop), content_length) not in result:
-                result.append((content_length - int(stop), content_length))
+            if (start, content_length) not in result:
+                result.append((start, content_length))
 
     # Can we satisfy the requested Range?
     # If we have an exceedingly high standard deviation
